@@ -11,7 +11,9 @@ Decides from the syntax tree / CFG of hailtop/utils/utils.py (nothing is run):
                block, on the exceptional path, cancels every task that is not done (no early exit from the loop) and awaits all tasks
   R5 online    OnlineBoundedGather2: call registers the task and clears the event; run_and_cleanup deregisters on every normal exit;
                only the first exception is kept; __aexit__ leaves only through the false edge of `while self._pending` with no await after it
-  R6 pairing   WithoutSemaphore releases exactly once on enter and re-acquires on *every* exit (the enclosing holder releases again)
+  R6 pairing   WithoutSemaphore releases exactly once on enter and re-acquires on *every* exit (the enclosing holder releases again); the exit
+               condition is evaluated per use: truth table of the tests of __aexit__ with the exception parameters fixed by the kind of exit and
+               the constructor flags fixed by the call site (keyword or default)
   R7 holder    a semaphore handed to bounded_gather2* by code in this file is either a parameter (the caller's protocol) or a local
                semaphore of which the caller holds a slot; a freshly built, un-held semaphore is raised to N+1 by WithoutSemaphore
   R8 flow      every parameter of a public wrapper (bounded_gather, bounded_gather2, any other bounded_gather* / caller-of-the-gatherers in
@@ -19,6 +21,10 @@ Decides from the syntax tree / CFG of hailtop/utils/utils.py (nothing is run):
   R9 confined  the partial functions handed to a wrapper reach the machinery only: `*pfs` goes into a delegation call (or a length / truth
                test); iterating, indexing or calling them, or asyncio.gather/wait/create_task/ensure_future in a wrapper, is a bypass of the
                bound / cancel / await discipline that R1-R6 establish for the machinery
+  R10 prompt   cancel_on_error: between the failure of `await asyncio.gather(*tasks)` and the loop that cancels the unfinished tasks nothing waits
+               for the (shared, possibly saturated) semaphore or for the tasks: every `async with` the exception leaves on its way to the finally
+               block is evaluated for an exceptional exit (WithoutSemaphore with the flags of that site must not acquire), and the finally block
+               reaches the cancel loop without `await <sema>.acquire()` / `async with <sema>` / an un-timed wait for the tasks
 Does not decide: schedules as such; with cancel_on_error=False the documented behaviour is that the remaining tasks keep running after
 the first error is raised; whether callers in other files hold a slot (thorough tier lists them as INFO).
 """
@@ -41,7 +47,7 @@ META = dict(
          'the partial functions themselves).  Not a proof over interleavings.',
     note='Trusted: CPython ast; engines/pyfacts CFG; asyncio.Semaphore.release is unbounded (value may exceed the initial value); asyncio.gather '
          'returns results in argument order and propagates the first exception immediately.',
-    technique='static analysis: lexical enclosure + CFG path enumeration + release/acquire pairing on all exits + parameter-flow on CFG paths',
+    technique='static analysis: lexical enclosure + CFG path enumeration + release/acquire pairing on all exits (truth table of the exit condition per call site) + parameter-flow on CFG paths',
     design_ref='DESIGN.md §3 C20',
 )
 
@@ -124,7 +130,7 @@ def _r2(ctx: Ctx, m: pf.Module) -> None:
         for a in _own_nodes(fn):
             if isinstance(a, ast.Await) and _is_parent_wait(a):
                 cons = f'{F}::{qn}::{pf.nsrc(a)}'
-                ok = any(isinstance(w, ast.AsyncWith) and isinstance(e, ast.Call) and pf.dotted(e.func) == WS and [pf.nsrc(x) for x in e.args] == [sema]
+                ok = any(isinstance(w, ast.AsyncWith) and isinstance(e, ast.Call) and pf.dotted(e.func) == WS and [pf.nsrc(x) for x in e.args[:1]] == [sema]
                          for w, e in _with_items(m, fn, a))
                 ctx.check(ok, 'R2', cons, f'the parent waits for its children while still holding its slot of `{sema}` (not inside `async with {WS}({sema})`): '
                           f'with all slots held by waiting parents no child can start and the gather never returns', m.path, a.lineno)
@@ -428,6 +434,122 @@ def _r4(ctx: Ctx, m: pf.Module, tasks_name: Dict[str, str]) -> None:
 
 
 # ------------------------------------------------------------------------------------------------
+# R10: cancellation is not deferred
+# ------------------------------------------------------------------------------------------------
+
+
+def _r10(ctx: Ctx, m: pf.Module, tasks_name: Dict[str, str]) -> None:
+    """"cancel the remaining work when asked to": between the failure of `await asyncio.gather(*tasks)` and the cancel loop of the finally block
+    nothing may wait for the semaphore or for the tasks themselves.  The semaphore is the caller's shared one; once it is saturated a waiter queues
+    behind everybody else, and the tasks that ought to be cancelled run on (their own release() is what eventually lets the gather proceed)."""
+    gr = m.func(GR)
+    sema = gr.args.args[0].arg
+    tname = tasks_name[GR]
+    tries = [t for t in _own_nodes(gr) if isinstance(t, ast.Try) and t.finalbody]
+    gather_in_try = [t for t in tries if any(isinstance(a, ast.Await) and pf.call_name(a) == 'asyncio.gather' for s in t.body for a in ast.walk(s))]
+    loops = [n for t in gather_in_try for s in t.finalbody for n in ast.walk(s) if isinstance(n, ast.For) and pf.nsrc(n.iter) == tname]
+    if len(gather_in_try) != 1 or len(loops) != 1:
+        af.blocked(ctx, 'R4', 'R10')   # R4 has reported the missing try/finally / cancel loop
+        return
+    tr = gather_in_try[0]
+    loop = loops[0]
+    model = _WSModel(ctx, m)
+    parents = m.parents()
+    cfg_gr = pf.cfg(gr)
+    gparams = {a.arg for a in list(gr.args.args) + list(gr.args.kwonlyargs)}
+
+    def truth(call: ast.Call, e: ast.AST) -> Optional[bool]:
+        # a flag handed on from a parameter of the gatherer: settled when every path to the site takes an edge that implies its value
+        neg = isinstance(e, ast.UnaryOp) and isinstance(e.op, ast.Not)
+        nm = e.operand if neg else e
+        if not (isinstance(nm, ast.Name) and nm.id in gparams and len(pf.assignments(gr).get(nm.id, [])) == 1):
+            return None
+        hosts = [n for n in cfg_gr.node_of(call) if n.kind == 'with'] or cfg_gr.node_of(call)
+        if len(hosts) != 1:
+            return None
+        for val in (True, False):
+            if cfg_gr.path_avoiding(cfg_gr.entry, lambda n: n is hosts[0], lambda n: False,
+                                    edge_ok=lambda a, b, lab, val=val: not (a.kind == 'test' and lab in ('T', 'F') and af.implied_on_edge(a.ast, lab, nm.id, val))) is None:
+                return (not val) if neg else val
+        return None
+    model.truth = truth
+    story = (f'the semaphore is the caller\'s shared one: when it is saturated (all slots busy and somebody queued - copy / rmtree / ls pass one semaphore through nested gathers) the slot '
+             f'freed by the failing task goes to the next FIFO waiter and this coroutine queues behind it, so the tasks that ought to be cancelled keep running, typically to completion '
+             f'(their own release() is what finally lets it proceed). Schedule: Semaphore(3), the caller holds one slot, bounded_gather2(sema, slow1, slow2, fail, cancel_on_error=True), '
+             f'one unrelated coroutine waiting on the semaphore: `fail` raises at once, yet slow1 and slow2 are not cancelled until one of them has finished')
+    # (i) what the exception passes on its way from the gather to the finally block
+    gathers = [a for s in tr.body for a in ast.walk(s) if isinstance(a, ast.Await) and pf.call_name(a) == 'asyncio.gather']
+    seen: Set[int] = set()
+    for a in gathers:
+        cur: ast.AST = a
+        while cur is not tr:
+            p = parents[cur]
+            if isinstance(p, (ast.With, ast.AsyncWith)) and any(cur is x for x in p.body) and id(p) not in seen:
+                seen.add(id(p))
+                for it in p.items:
+                    e = it.context_expr
+                    cons = f'{F}::{GR}::a failure leaves `{"async " if isinstance(p, ast.AsyncWith) else ""}with {pf.nsrc(e)}` without waiting'
+                    if isinstance(p, ast.AsyncWith) and isinstance(e, ast.Call) and pf.dotted(e.func) == WS:
+                        v, cond = model.exit_acquires(e, exceptional=True)
+                        flags = model.site_flags(e)
+                        shown = ', '.join(f'{k.lstrip("_")}={v2}' for k, v2 in flags.items() if k != model.sem_attr.split('.')[-1])
+                        ctx.need(v != 'may', f'{GR}: whether `async with {pf.nsrc(e)}` re-acquires the semaphore when it is left by an exception depends on `{cond}` with a value '
+                                 f'that is not a constant at this site ({shown or "no flags"}): not decided')
+                        ctx.check(v == 'never', 'R10', cons,
+                                  f'when a partial function fails, `await asyncio.gather(*{tname})` raises inside `async with {pf.nsrc(e)}`; its __aexit__ (condition `{cond}`, at this site '
+                                  f'{shown or "no flags"}{"" if e.keywords else " from the constructor default"}) {"awaits" if v == "always" else "may await"} `{model.sem_attr}.acquire()` BEFORE the '
+                                  f'finally block cancels the unfinished tasks; {story}', m.path, p.lineno, detail={'exit_on_error': v})
+                    elif pf.nsrc(e) == sema:
+                        ctx.ok('R10', cons, 'leaving `async with <sema>` releases, it does not wait')
+                    else:
+                        raise AnalysisError(f'{GR}: the gather is inside `with {pf.nsrc(e)}`, whose exit on error is not modelled')
+            elif isinstance(p, ast.Try) and p is not tr and any(cur is x for x in p.body):
+                blocks = [h.body for h in p.handlers] + [p.finalbody]
+                ctx.need(not any(pf.has_await(st) for b in blocks for st in b), f'{GR}: an inner try around the gather suspends in its handler / finally before the cancelling finally runs (not analysed)')
+            cur = p
+    if not seen:
+        ctx.ok('R10', f'{F}::{GR}::a failure of the gather reaches the finally block directly', 'no context manager between the gather and the try/finally')
+    # (ii) the finally block itself: nothing waits before the cancel loop
+    cfg = _sub_cfg(tr.finalbody)
+    H = [n for n in cfg.nodes if n.kind == 'loop' and n.ast is loop][0]
+    before = cfg.reachable_from(cfg.entry, avoid=lambda n: n is H)
+    cons2 = f'{F}::{GR}::finally::cancels before it waits'
+    bad = None
+    for n in cfg.nodes:
+        if n is H or n.id not in before or n.ast is None or not pf.node_has_await(n) or H.id not in cfg.reachable_from(n):
+            continue
+        waits_on = None
+        if n.kind == 'with' and isinstance(n.ast, ast.AsyncWith):
+            for it in n.ast.items:
+                e = it.context_expr
+                if pf.nsrc(e) == sema:
+                    waits_on = f'`async with {sema}` acquires a slot'
+                elif isinstance(e, ast.Call) and pf.dotted(e.func) == WS:
+                    if model.exit_acquires(e, exceptional=False)[0] != 'never':
+                        waits_on = f'leaving `async with {pf.nsrc(e)}` re-acquires a slot'
+                else:
+                    raise AnalysisError(f'{GR}: `async with {pf.nsrc(e)}` in the finally block before the cancel loop (not analysed)')
+        else:
+            for aw in [x for x in pf.walk_shallow(n.ast) if isinstance(x, ast.Await)]:
+                cn = pf.call_name(aw) or ''
+                args = [pf.nsrc(x) for x in aw.value.args] if isinstance(aw.value, ast.Call) else []
+                if cn == f'{sema}.acquire':
+                    waits_on = f'`{pf.nsrc(aw)}` waits for a slot'
+                elif cn in ('asyncio.wait', 'asyncio.gather') and any(tname in x for x in args) and not any(k.arg in ('timeout', None) for k in aw.value.keywords):  # type: ignore[attr-defined]
+                    waits_on = f'`{pf.nsrc(aw)}` waits for the very tasks that are to be cancelled'
+                else:
+                    raise AnalysisError(f'{GR}: `{pf.nsrc(aw)}` suspends in the finally block before the cancel loop (not analysed)')
+        if waits_on is not None and bad is None:
+            bad = (n, waits_on)
+    if bad is not None:
+        ctx.bad('R10', cons2, f'in the finally block {bad[1]} before the loop that cancels the unfinished tasks: the remaining work is cancelled late or only after it has completed; '
+                + (story if 'slot' in bad[1] else 'with cancel_on_error=True and one failing partial function the others run to completion before `cancel()` is called on them'),
+                m.path, bad[0].lineno)
+    else:
+        ctx.ok('R10', cons2, 'no suspension point on the way from the entry of the finally block to the cancel loop')
+
+
+# ------------------------------------------------------------------------------------------------
 # R5
 # ------------------------------------------------------------------------------------------------
 
@@ -584,6 +706,107 @@ def _r5(ctx: Ctx, m: pf.Module) -> None:
 # ------------------------------------------------------------------------------------------------
 
 
+class _WSModel:
+    """WithoutSemaphore as the rules need it: which attribute holds the semaphore, which attributes hold constructor parameters (with their
+    defaults), and the CFG of __aexit__ with its `await <sem>.acquire()` nodes."""
+
+    def __init__(self, ctx: Ctx, m: pf.Module):
+        cls = m.cls(WS)
+        init = af.method(m, cls, '__init__')
+        a = init.args
+        ctx.need(len(a.args) >= 2 and not a.vararg and not a.kwarg and not a.posonlyargs, f'{WS}.__init__: parameters changed')
+        self.init = init
+        self.pos = [x.arg for x in a.args][1:]
+        self.names = self.pos + [x.arg for x in a.kwonlyargs]
+        self.defaults: Dict[str, ast.expr] = dict(zip(self.pos[len(self.pos) - len(a.defaults):], a.defaults))
+        self.defaults.update({x.arg: d for x, d in zip(a.kwonlyargs, a.kw_defaults) if d is not None})
+        self.attr_param: Dict[str, str] = {}
+        stores: Dict[str, int] = {}
+        for f in cls.body:
+            if isinstance(f, (ast.FunctionDef, ast.AsyncFunctionDef)):
+                for x in ast.walk(f):
+                    if isinstance(x, ast.Attribute) and isinstance(x.ctx, (ast.Store, ast.Del)) and isinstance(x.value, ast.Name) and x.value.id == 'self':
+                        stores[x.attr] = stores.get(x.attr, 0) + 1
+        for st in af.body_no_doc(init):
+            if isinstance(st, (ast.Assign, ast.AnnAssign)) and st.value is not None:
+                t = st.targets[0] if isinstance(st, ast.Assign) else st.target
+                if isinstance(t, ast.Attribute) and isinstance(t.value, ast.Name) and t.value.id == a.args[0].arg and isinstance(st.value, ast.Name) and st.value.id in self.names \
+                        and stores.get(t.attr) == 1:
+                    self.attr_param[t.attr] = st.value.id
+        sem = [k for k, v in self.attr_param.items() if v == self.pos[0]]
+        ctx.need(len(sem) == 1, f'{WS}.__init__ does not store the semaphore')
+        self.sem_attr = f'self.{sem[0]}'
+        self.ex = af.method(m, cls, '__aexit__')
+        ctx.need(len(self.ex.args.args) == 4, f'{WS}.__aexit__: parameters changed')
+        self.exc_params = [x.arg for x in self.ex.args.args][1:]
+        self.cfg = pf.cfg(self.ex)
+        self.acq = af.stmt_nodes(self.cfg, lambda n: any(isinstance(aw, ast.Await) and pf.call_name(aw) == f'{self.sem_attr}.acquire' for aw in ast.walk(n.ast)))
+        self.truth = None   # optional: (call site, argument expression) -> Optional[bool]
+
+    def site_flags(self, call: ast.Call) -> Dict[str, Optional[bool]]:
+        """attribute -> truth value of the constructor argument stored in it at this call site (None = not a constant and not settled by
+        self.truth, a callback  expression -> True / False / None  a rule may install to use the path condition of the site)."""
+        bound: Dict[str, ast.expr] = dict(zip(self.pos, call.args))
+        for k in call.keywords:
+            if k.arg is not None:
+                bound[k.arg] = k.value
+        star = any(isinstance(x, ast.Starred) for x in call.args) or any(k.arg is None for k in call.keywords)
+        out: Dict[str, Optional[bool]] = {}
+        for attr, prm in self.attr_param.items():
+            e = bound.get(prm, self.defaults.get(prm))
+            out[attr] = bool(e.value) if (not star and isinstance(e, ast.Constant) and isinstance(e.value, (bool, int, type(None)))) else None
+            if out[attr] is None and not star and e is not None and self.truth is not None:
+                out[attr] = self.truth(call, e)
+        return out
+
+    def exit_acquires(self, call: ast.Call, exceptional: bool) -> Tuple[str, str]:
+        """Does __aexit__ await <sem>.acquire() when the block was left (exceptional: by an exception / cancellation; else normally), for the
+        constructor arguments of this site?  ('always' | 'never' | 'may', the decisive condition).  The tests of __aexit__ are evaluated over the
+        truth table of their atoms: exception parameters are fixed by the kind of exit, constructor flags by the site, every other atom is free."""
+        flags = self.site_flags(call)
+        conds: List[str] = []
+
+        def atom_value(a_: ast.AST) -> Optional[bool]:
+            if isinstance(a_, ast.Name) and a_.id in self.exc_params:
+                return exceptional
+            if isinstance(a_, ast.Compare) and len(a_.ops) == 1 and isinstance(a_.left, ast.Name) and a_.left.id in self.exc_params \
+                    and isinstance(a_.comparators[0], ast.Constant) and a_.comparators[0].value is None:
+                if isinstance(a_.ops[0], (ast.Is, ast.Eq)):
+                    return not exceptional
+                if isinstance(a_.ops[0], (ast.IsNot, ast.NotEq)):
+                    return exceptional
+            if isinstance(a_, ast.Attribute) and isinstance(a_.value, ast.Name) and a_.value.id == 'self' and a_.attr in flags:
+                return flags[a_.attr]
+            return None
+
+        def outcomes(test: ast.AST) -> Set[bool]:
+            from engines import absdom
+            atoms = absdom.bool_atoms(test)
+            free = [absdom.atom_key(x) for x in atoms if atom_value(x) is None]
+            res: Set[bool] = set()
+            for v in absdom.valuations(free):
+                res.add(absdom.eval_bool(test, lambda x: atom_value(x) if atom_value(x) is not None else v[absdom.atom_key(x)]))
+            return res
+
+        def edge_ok(a_: pf.Node, b_: pf.Node, lab: str) -> bool:
+            if b_ is self.cfg.raise_exit:
+                return False
+            if a_.kind == 'test' and lab in ('T', 'F'):
+                ok = (lab == 'T') in outcomes(a_.ast)
+                return ok
+            return True
+        for t in self.cfg.nodes:
+            if t.kind == 'test':
+                conds.append(pf.nsrc(t.ast))
+        reach = self.cfg.reachable_from(self.cfg.entry, edge_ok=edge_ok)
+        hit = [n for n in self.acq if n.id in reach]
+        skip = self.cfg.path_avoiding(self.cfg.entry, lambda n: n is self.cfg.exit, lambda n: any(n is x for x in self.acq), edge_ok=edge_ok)
+        cond = ' / '.join(conds) or 'unconditional'
+        if not hit:
+            return 'never', cond
+        return ('always' if skip is None else 'may'), cond
+
+
 def _r6(ctx: Ctx, m: pf.Module) -> None:
     cls = m.cls(WS)
     init = af.method(m, cls, '__init__')
@@ -604,15 +827,32 @@ def _r6(ctx: Ctx, m: pf.Module) -> None:
     acq = af.stmt_nodes(cfg, lambda n: any(isinstance(a, ast.Await) and pf.call_name(a) == f'{sem_attr}.acquire' for a in ast.walk(n.ast)))
     rel = af.stmt_nodes(cfg, lambda n: af.node_is_call(n, f'{sem_attr}.release') is not None)
     ctx.need(not rel, f'{WS}.__aexit__ releases the semaphore (idiom not recognised)')
-    skip = cfg.path_avoiding(cfg.entry, lambda n: n is cfg.exit, lambda n: any(n is a for a in acq))
     twice = any(af.direct(cfg, a, b) for a in acq for b in acq)
     cons = f'{F}::{WS}.__aexit__'
-    if skip is not None:
-        tests = [n for n in skip if n.kind == 'test']
-        n_sites = sum(1 for c in ast.walk(m.tree) if isinstance(c, ast.Call) and pf.dotted(c.func) == WS)
-        n_flag = sum(1 for c in ast.walk(m.tree) if isinstance(c, ast.Call) and pf.dotted(c.func) == WS and c.keywords)
-        ctx.bad('R6', cons, f'__aexit__ re-acquires `{sem_attr}` only when `{pf.nsrc(tests[-1].ast) if tests else "?"}`; on the other exits (an exception or cancellation inside the '
-                f'block; {n_sites - n_flag} of {n_sites} uses in this file keep the default) the slot released by __aenter__ is never taken back, while the enclosing holder '
+    # the condition under which the slot is taken back is evaluated per use: constructor flags come from the call site (or the default), the
+    # exception parameters from the kind of exit
+    model = _WSModel(ctx, m)
+    ctx.need(model.sem_attr == sem_attr, f'{WS}: semaphore attribute not recognised')
+    sites = [c for c in ast.walk(m.tree) if isinstance(c, ast.Call) and pf.dotted(c.func) == WS]
+    ctx.need(bool(sites), f'no use of {WS} in {F}')
+    leaky: List[Tuple[ast.Call, str, str]] = []
+    cond = ''
+    for c in sites:
+        for exceptional in (False, True):
+            v, cond = model.exit_acquires(c, exceptional)
+            if v != 'always':
+                leaky.append((c, 'an exception or cancellation inside the block' if exceptional else 'a normal exit', v))
+    ctx.need(not leaky or any(v == 'never' for _, _, v in leaky), f'{WS}.__aexit__: whether the slot is taken back depends on `{cond}` with constructor arguments that are not constants '
+             f'at {[pf.nsrc(c) for c, _, _ in leaky][:2]}: not decided')
+    if leaky:
+        n_exc = len({id(c) for c, how, _ in leaky if how.startswith('an exception')})
+        n_flag = sum(1 for c in sites if c.keywords)
+        normal = [c for c, how, _ in leaky if how.startswith('a normal')]
+        ctx.bad('R6', cons, f'__aexit__ re-acquires `{sem_attr}` only when `{cond}`; '
+                + (f'on a normal exit of `{pf.nsrc(normal[0])}` the slot is not (always) taken back; ' if normal else '')
+                + f'on the other exits (an exception or cancellation inside the '
+                f'block; {n_exc} of {len(sites)} uses in this file are affected, {len(sites) - n_flag} keep the constructor default) the slot released by __aenter__ is never taken back, '
+                f'while the enclosing holder '
                 f'(`async with sema` of run_with_sema / the caller) still releases its slot on the way out: the semaphore value ends one above its initial value for every such '
                 f'failure, so more tasks than the bound run at once', m.path, ex.lineno)
     else:
@@ -908,6 +1148,9 @@ def run(ctx: Ctx) -> None:
     ctx.rule('R7', 'a semaphore handed to bounded_gather2* from this file is a parameter or held by the caller', 3)
     ctx.rule('R8', 'every parameter of a public gather wrapper is forwarded to the machinery or tested on every value-returning path', 6)
     ctx.rule('R9', 'the partial functions handed to a public wrapper reach only the analysed machinery (no direct gather/wait/create_task/call in a wrapper)', 2)
+    ctx.rule('R10', 'cancel_on_error: between the failure of the gather and the cancel loop nothing waits for the (shared) semaphore or for the tasks: the exit of every `async with` '
+                    'around the gather is evaluated for an exceptional exit with the constructor flags of that site (WithoutSemaphore.__aexit__ as a truth table), and the finally block '
+                    'reaches its cancel loop without a suspension point', 2)
     ctx.assume('asyncio.Semaphore.release() is unbounded; asyncio.gather propagates the first exception as soon as it happens and does not cancel the other awaitables')
     ctx.assume('callers of bounded_gather2* / OnlineBoundedGather2 that receive a semaphore hold one slot of it (the protocol WithoutSemaphore implements)')
     m = pf.load(F)
@@ -916,6 +1159,7 @@ def run(ctx: Ctx) -> None:
     _r2(ctx, m)
     tn = _r3(ctx, m)
     _r4(ctx, m, tn)
+    _r10(ctx, m, tn)
     _r5(ctx, m)
     _r6(ctx, m)
     _r7(ctx, m)
